@@ -295,3 +295,91 @@ fn c35_short_reads_and_injected_faults() {
     println!("VERIF-B-SAMPLE violation classes this run: {:?}", counts);
     println!("VERIF-B unit=reader test=c35_short_reads_and_injected_faults evaluations={evals} nontrivial={nontrivial} exhaustive={} domain=read of C.jpg, CA.jpg, video1.mp4, libpng-test.png, sample1.gif, no_manifest.jpg x piece sizes {{1,2,3,7,16,1000}} and an I/O fault at every stream operation index (quick: all below 400, then every 13th)", thorough);
 }
+
+
+// short reads (and a breaking stream at a sample of operation indices) while reading assets of every writable format
+// that the SDK itself signed - this reaches the manifest-fetching read helpers of every handler
+#[test]
+fn c35_short_reads_signed_assets_all_formats() {
+    use std::sync::{atomic::{AtomicUsize, Ordering}, Arc};
+    let mut evals = 0usize;
+    let mut nontrivial = 0usize;
+    let mut counts: std::collections::BTreeMap<String, usize> = std::collections::BTreeMap::new();
+    let mut bad = |k: String, input: String, counts: &mut std::collections::BTreeMap<String, usize>| {
+        let c = counts.entry(k.clone()).or_insert(0);
+        *c += 1;
+        if *c <= 3 {
+            println!("VERIF-B-VIOLATION key={k} input={input}");
+        }
+    };
+    let describe = |r: &Result<Reader>| -> String {
+        match r {
+            Ok(rd) => format!("Ok({:?}, active={:?})", rd.validation_state(), rd.active_label().map(|l| l.len())),
+            Err(e) => format!("Err({})", e.to_string().chars().take(60).collect::<String>()),
+        }
+    };
+    for (file, mime) in [
+        ("IMG_0003.jpg", "image/jpeg"), ("libpng-test.png", "image/png"), ("sample1.gif", "image/gif"), ("test.tiff", "image/tiff"), ("sample1.wav", "audio/wav"),
+        ("test.webp", "image/webp"), ("sample1.mp3", "audio/mpeg"), ("sample1.svg", "image/svg+xml"), ("sample1.jxl", "image/jxl"), ("sample1.flac", "audio/flac"),
+        ("video1_no_manifest.mp4", "video/mp4"), ("test.avi", "video/avi"),
+    ] {
+        let Ok(bytes) = std::fs::read(crate::utils::test::fixture_path(file)) else { continue };
+        if bytes.is_empty() {
+            continue;
+        }
+        let signed: std::result::Result<Vec<u8>, Error> = (|| {
+            let shared = crate::utils::test::test_context().into_shared();
+            let mut b = crate::Builder::from_shared_context(&shared).with_definition(r#"{"title":"t","assertions":[]}"#)?;
+            b.set_intent(crate::BuilderIntent::Create(crate::DigitalSourceType::Empty));
+            let mut src = std::io::Cursor::new(bytes.clone());
+            let mut dst = std::io::Cursor::new(Vec::new());
+            b.save_to_stream(mime, &mut src, &mut dst)?;
+            Ok(dst.into_inner())
+        })();
+        let Ok(asset) = signed else { continue };
+        let read_with = |piece: usize, fail_at: Option<usize>| -> (Result<Reader>, usize, bool) {
+            let ops = Arc::new(AtomicUsize::new(0));
+            let w = Wrapped { inner: std::io::Cursor::new(asset.clone()), piece, fail_at, ops: Arc::clone(&ops) };
+            let r = std::panic::catch_unwind(std::panic::AssertUnwindSafe(|| Reader::from_context(crate::utils::test::test_context()).with_stream(mime, w)));
+            match r {
+                Ok(r) => (r, ops.load(Ordering::SeqCst), false),
+                Err(_) => (Err(Error::OtherError("panic".into())), ops.load(Ordering::SeqCst), true),
+            }
+        };
+        let (plain, total_ops, _) = read_with(0, None);
+        let want = describe(&plain);
+        for piece in [1usize, 7, 100, 4096] {
+            // one-byte reads of a large asset are slow: skip them above 300 kB
+            if piece == 1 && asset.len() > 300_000 {
+                continue;
+            }
+            evals += 1;
+            nontrivial += 1;
+            let (r, _, panicked) = read_with(piece, None);
+            if panicked {
+                bad("io.short_read_panic".to_string(), format!("signed {file}: piece size {piece}"), &mut counts);
+            } else if describe(&r) != want {
+                bad("io.result_depends_on_read_size".to_string(), format!("signed {file}: piece size {piece}: {} instead of {want}", describe(&r)), &mut counts);
+            }
+        }
+        let step = (total_ops / 40).max(1);
+        let mut k = 0usize;
+        while k < total_ops {
+            evals += 1;
+            let (r, _, panicked) = read_with(0, Some(k));
+            if panicked {
+                bad("io.fault_panic".to_string(), format!("signed {file}: stream breaks at operation {k} of {total_ops}"), &mut counts);
+            } else if let Ok(rd) = &r {
+                if rd.validation_state() != ValidationState::Invalid {
+                    bad("io.fault_hidden_result_valid".to_string(), format!("signed {file}: stream breaks at operation {k} of {total_ops} -> {}", describe(&r)), &mut counts);
+                } else {
+                    bad("io.fault_hidden_result_ok".to_string(), format!("signed {file}: stream breaks at operation {k} of {total_ops} -> {}", describe(&r)), &mut counts);
+                }
+            }
+            k += step;
+        }
+        println!("VERIF-B-SAMPLE signed {file} ({} bytes): plain read {want}, {total_ops} stream operations", asset.len());
+    }
+    println!("VERIF-B-SAMPLE violation classes this run: {:?}", counts);
+    println!("VERIF-B unit=reader test=c35_short_reads_signed_assets_all_formats evaluations={evals} nontrivial={nontrivial} exhaustive=false domain=assets of 12 formats signed by the SDK, read back with piece sizes {{1 (small assets),7,100,4096}} and with the stream breaking at 40 evenly spaced operation indices");
+}
